@@ -150,16 +150,40 @@ def leaf_value(node, n, k, lib):
     kind = node[0]
     if kind == "num":
         return node[1]
+    import zlib
+    sel = zlib.crc32(repr(node).encode()) // 7  # the representation handed to the library: a function of the operand
     if kind == "npnum":
-        return np.float64(node[1]) if lib else float(node[1])
+        if not lib:
+            return float(node[1])
+        v = node[1]
+        forms = [np.float64, np.float32] + ([np.int64, np.int32] if float(v).is_integer() else [])  # all exact here
+        return forms[sel % len(forms)](v)
     if kind == "cnum":
         return complex(node[1], node[2])
     if kind == "vec":
-        return tuple(node[1]) if lib else np.array(node[1], dtype=float)
-    if kind == "arr":
-        return gen.make_array(node[1], (*n, k), "int") + 0.5
-    if kind == "arr1":
-        return gen.make_array(node[1], (*n, 1), "int") + 0.5
+        if not lib:
+            return np.array(node[1], dtype=float)
+        forms = [tuple, list, lambda x: np.array(x, dtype=float)]
+        if all(float(x).is_integer() for x in node[1]):
+            forms.append(lambda x: np.array([int(i) for i in x], dtype=np.int64))
+        return forms[sel % len(forms)](node[1])
+    if kind in ("arr", "arr1"):
+        a = gen.make_array(node[1], (*n, k if kind == "arr" else 1), "int") + 0.5
+        if not lib:
+            return a
+        form = sel % 5
+        if form == 1:
+            return np.asfortranarray(a)
+        if form == 2:
+            big = np.zeros((*(2 * m for m in n), a.shape[-1]))
+            big[tuple(slice(None, None, 2) for _ in n)] = a
+            return big[tuple(slice(None, None, 2) for _ in n)]
+        if form == 3:
+            a.flags.writeable = False
+            return a
+        if form == 4:
+            return a.astype(np.float32)  # halves of small integers: exact
+        return a
     raise KeyError(kind)
 
 
